@@ -211,3 +211,17 @@ package blockstore
 
 //@ func (*ReadOnly).Roots
 //@   call[carv1.ReadHeader#0] assert configured_header_limit [C09]: arg1 == b.opts.MaxAllowedHeaderSize
+
+//@ func OpenReadWrite
+//@   let f, ferr := call[os.OpenFile#0]
+//@   let rw, rerr := call[OpenReadWriteFile#0]
+//@   call[os.OpenFile#0] assert keeps_existing_content [C06,C12]: arg0 == path && arg1 == 66
+//@   call[OpenReadWriteFile#0] assert same_roots_and_options [C12]: ref(arg0) == ref(f) && arg1 == roots && arg2 == opts
+//@   ensures store_over_that_file [C12]: err == nil ==> result0 == rw && rerr == nil
+
+//@ func OpenReadOnly
+//@   let f, ferr := call[mmap.Open#0]
+//@   let ro, rerr := call[NewReadOnly#0]
+//@   call[mmap.Open#0] assert the_file [C07]: arg0 == path
+//@   call[NewReadOnly#0] assert over_that_file_with_no_index_supplied [C07]: ref(arg0) == ref(f) && arg1 == nil && arg2 == opts
+//@   ensures store_over_that_file [C07]: err == nil ==> result0 == ro && rerr == nil
